@@ -80,7 +80,9 @@ func c09(r *core.Run) {
 		"both keep optionals exactly for the targets AnyStruct and AnyResource."
 	r.NotDecided = "equality of cast results and type-test results on all values."
 	w := r.W
-	named := func(n string) func(*types.Func) bool { return func(o *types.Func) bool { return o != nil && o.Name() == n } }
+	named := func(n string) func(*types.Func) bool {
+		return func(o *types.Func) bool { return o != nil && o.Name() == n }
+	}
 	isSub := func(o *types.Func) bool {
 		return o != nil && (o.Name() == "IsSubType" || o.Name() == "IsSubTypeOfSemaType")
 	}
